@@ -23,6 +23,7 @@ import (
 	"net/http/httptest"
 	"os"
 	"path/filepath"
+	"reflect"
 	"regexp"
 	"sort"
 	"strconv"
@@ -388,9 +389,18 @@ func (e *evalCtx) eval(t *node) (v val) {
 			return val{bad: "body index"}
 		}
 		opts := createOpts(e.p.jsonB[b], o)
-		f, err := ach.FileFromJSONWith([]byte(e.p.jsonB[b]), opts)
+		// decodeCreateFileRequest (since c942d41a): without a flag in the query or at the top level of
+		// the body the validateOpts member of the File document applies and is what gets stored
+		use := opts
+		if reflect.DeepEqual(*opts, ach.ValidateOpts{}) {
+			use = nil
+		}
+		f, err := ach.FileFromJSONWith([]byte(e.p.jsonB[b]), use)
 		if f == nil {
 			f = ach.NewFile()
+		}
+		if use == nil && f.GetValidation() != nil {
+			opts = f.GetValidation()
 		}
 		f.SetValidation(opts)
 		return val{f: f, parseErr: err}
